@@ -90,6 +90,9 @@ class NumericArray(list):
     -------
     one of gfapy.NumericArray.SUBTYPE
     """
+    if len(self) == 0:
+      raise gfapy.ValueError(
+        "NumericArray is empty: an array without values cannot be represented")
     if all([ isinstance(f, float) for f in self]):
       return "f"
     else:
